@@ -956,7 +956,7 @@ func (P) Generate(g *core.Gen) {
 
 	// ---- end to end: real chain, real database, flush, reopen with another cache size, exported readers
 	var chainLines []string
-	for i := 0; i < g.N(20, 700); i++ {
+	for i := 0; i < g.N(15, 700); i++ {
 		l := genChainLine(r)
 		chainLines = append(chainLines, l)
 		rec(g, "chain", true, l)
@@ -966,7 +966,7 @@ func (P) Generate(g *core.Gen) {
 	// from what was generated so far (every op incl. chains with their own databases)
 	{
 		n := len(recorded)
-		for i := 0; i < g.N(30, 1000); i++ {
+		for i := 0; i < g.N(24, 1000); i++ {
 			k := 8 + r.Intn(5)
 			subs := make([]string, 0, k)
 			for len(subs) < k {
